@@ -7,7 +7,11 @@ PROP = {
   "saml2_tophat.sigver:SecurityContext._check_signature",
   "saml2_tophat.sigver:CryptoBackendXmlSec1.encrypt_assertion",
   "saml2_tophat.sigver:CryptoBackendXmlSec1.sign_statement",
-  "saml2_tophat.sigver:SecurityContext.decrypt_keys"
+  "saml2_tophat.sigver:SecurityContext.decrypt_keys",
+  "saml2_tophat.response:StatusResponse._loads",
+  "saml2_tophat.sigver:SecurityContext.correctly_signed_response",
+  "saml2_tophat.sigver:SecurityContext.check_signature",
+  "saml2_tophat.response:AuthnResponse._assertion"
  ],
  "level": "proof",
  "id": "C20"
